@@ -35,10 +35,13 @@
 (*     / parsed, one PickStep per drained input (the pending set is a hash *)
 (*     map: WHICH input is drained next is non-deterministic), the         *)
 (*     deterministic descent as operators threading the parser state;      *)
-(*     two modes: "faithful" (Register overwrites silently, only parsed /  *)
-(*     resolving / pending names are visible to a reference, missing       *)
-(*     result = panic) and "intended" (the documented contract: duplicate  *)
-(*     is an error, every definition of the set is visible);               *)
+(*     three modes: "faithful" = the implementation as it is now (only     *)
+(*     parsed / resolving / pending names are visible to a reference, a    *)
+(*     missing result = panic; since fix 59a830b a full name defined twice *)
+(*     by one parse is a name collision), "pinned" = the pinned snapshot   *)
+(*     494edea (Register overwrites silently, no collision check), and     *)
+(*     "intended" (the documented contract: duplicate is an error, every   *)
+(*     definition of the set is visible);                                  *)
 (*  3. AllOutcomes: every terminal outcome over all pick orders.           *)
 (***************************************************************************)
 EXTENDS AvroSchema
@@ -162,18 +165,21 @@ ExpectedResult(scn) == [i \in 1..Len(scn.ins) |-> InMeaning(scn, i)]
 (* 2. The parser                                                       *)
 (*                                                                     *)
 (* Parser state (one record threaded through the descent):             *)
-(*   mode      "faithful" | "intended"                                 *)
+(*   mode      "faithful" | "pinned" | "intended"                      *)
 (*   ins       the inputs (constant)                                   *)
 (*   pending   indices of inputs not yet parsed   (input_schemas)      *)
 (*   resolving names of records being parsed      (resolving_schemas)  *)
 (*   parsed    set of <<name, term>>              (parsed_schemas)     *)
 (*   out       set of <<input index, term>>  (intended mode only: the  *)
 (*             result is kept per input, not looked up by name)        *)
+(*   defined   full names defined so far by this parse (defined_names)  *)
 (*   form,main the rest of the scenario (constant)                     *)
 (*   err       "" or the reason of the failure                         *)
 (*   trace,log parser events (what the proposed hook would emit), kept  *)
 (*             only when trace is set                                  *)
 (* ------------------------------------------------------------------ *)
+Impl(mode) == mode \in {"faithful", "pinned"}          \* structured like the implementation
+
 Has(parsed, nm) == \E p \in parsed : p[1] = nm
 Get(parsed, nm) == (CHOOSE p \in parsed : p[1] = nm)[2]
 Put(parsed, nm, t) == {p \in parsed : p[1] # nm} \cup {<<nm, t>>}
@@ -186,17 +192,26 @@ BadTerm == [k |-> "null"]
 (* the name an input is filed under in the pending map *)
 InnerNameText(h) == IF h.how = "dotted" THEN FullName(h.ns, h.n) ELSE h.n
 KeyOf(mode, d) ==
-  IF mode = "faithful" THEN NameOf(d.hdr, "")          \* Name::parse(outer object, None)
+  IF Impl(mode) THEN NameOf(d.hdr, "")                 \* Name::parse(outer object, None)
   ELSE IF d.k = "wrap" THEN NameOf(d.inner.hdr, "")    \* the name the input defines
   ELSE NameOf(d.hdr, "")
 (* the name the parsed input is stored under afterwards (get_schema_type_name): when "type" is an   *)
 (* object with a "name", that name's TEXT (its namespace attribute is not consulted)                *)
 StoreKeyOf(mode, d) ==
-  IF mode = "faithful" /\ d.k = "wrap" THEN InnerNameText(d.inner.hdr) ELSE KeyOf(mode, d)
+  IF Impl(mode) /\ d.k = "wrap" THEN InnerNameText(d.inner.hdr) ELSE KeyOf(mode, d)
 
-(* Register: a finished definition becomes visible under its full name. *)
-(* faithful: overwrites silently (the FIXME in register_parsed_schema); *)
-(* intended: defining a full name twice is an error.                   *)
+(* Define: the name of a definition is met (before its fields are parsed).                    *)
+(* faithful: a full name already defined by this parse is a name collision (fix 59a830b);     *)
+(* pinned: nothing is checked; intended: the duplicate was found by the scan / by Register.   *)
+Define(st, nm) ==
+  IF st.mode = "faithful" /\ nm \in st.defined
+  THEN WithErr(Logged(st, Ev("define", nm, "collision")), "name collision " \o nm)
+  ELSE [st EXCEPT !.defined = @ \cup {nm}]
+
+(* Register: a finished definition becomes visible under its full name.                        *)
+(* faithful, pinned: insert, overwriting silently whatever was there (register_parsed_schema;  *)
+(* in the pinned snapshot this is how a second definition of a name replaced the first);       *)
+(* intended: defining a full name twice is an error.                                           *)
 Register(st, nm, t) ==
   IF st.mode = "intended" /\ Has(st.parsed, nm)
   THEN WithErr(Logged(st, Ev("register", nm, "duplicate")), "duplicate definition of " \o nm)
@@ -205,8 +220,8 @@ Register(st, nm, t) ==
 
 (* what happens with the term of a completely parsed INPUT i *)
 StoreInput(st, i, t) ==
-  IF st.mode = "faithful"
-  THEN [st EXCEPT !.parsed = Put(@, StoreKeyOf("faithful", st.ins[i]), t)]
+  IF Impl(st.mode)
+  THEN [st EXCEPT !.parsed = Put(@, StoreKeyOf(st.mode, st.ins[i]), t)]
   ELSE [st EXCEPT !.out = @ \cup {<<i, t>>}]
 
 (* intended mode: every name defined anywhere in the set, nested definitions and the main schema included *)
@@ -224,16 +239,20 @@ DescendDef(d, encl, st) ==
   CASE d.k = "wrap" -> DescendDef(d.inner, encl, st)        \* "type" is an object: descend, same namespace
     [] d.k = "fixed" ->
          LET nm == NameOf(d.hdr, encl)  t == [k |-> "fixed", name |-> nm, size |-> d.size]
-         IN [st |-> Register(st, nm, t), t |-> t]
+             st0 == Define(st, nm)
+         IN IF st0.err # "" THEN [st |-> st0, t |-> BadTerm] ELSE [st |-> Register(st0, nm, t), t |-> t]
     [] d.k = "enum" ->
          LET nm == NameOf(d.hdr, encl)  t == [k |-> "enum", name |-> nm, symbols |-> Syms]
-         IN [st |-> Register(st, nm, t), t |-> t]
+             st0 == Define(st, nm)
+         IN IF st0.err # "" THEN [st |-> st0, t |-> BadTerm] ELSE [st |-> Register(st0, nm, t), t |-> t]
     [] d.k = "record" ->
          LET nm == NameOf(d.hdr, encl)
-             st1 == [st EXCEPT !.resolving = @ \cup {nm}]          \* visible to its own fields
+             st0 == Define(st, nm)
+             st1 == [st0 EXCEPT !.resolving = @ \cup {nm}]         \* visible to its own fields
              r == DescendFields(d.fields, 1, NsOf(d.hdr, encl), st1, <<>>)
              t == [k |-> "record", name |-> nm, fields |-> r.t]
-         IN IF r.st.err # "" THEN [st |-> r.st, t |-> BadTerm]
+         IN IF st0.err # "" THEN [st |-> st0, t |-> BadTerm]
+            ELSE IF r.st.err # "" THEN [st |-> r.st, t |-> BadTerm]
             ELSE [st |-> Register(r.st, nm, t), t |-> t]
 
 DescendType(t, encl, st) ==
@@ -263,13 +282,13 @@ FetchRef(nm, st) ==
 (* ---- the steps of the machine ---- *)
 InitState(scn, mode) ==
   [mode |-> mode, ins |-> scn.ins, form |-> scn.form, main |-> scn.main,
-   pending |-> 1..Len(scn.ins), resolving |-> {}, parsed |-> {}, out |-> {},
+   pending |-> 1..Len(scn.ins), resolving |-> {}, parsed |-> {}, out |-> {}, defined |-> {},
    err |-> "", trace |-> FALSE, log |-> <<>>]
 
 (* before anything is parsed: two inputs filed under one name are rejected (parse_list, NameCollision); *)
 (* the intended parser scans every definition of the set, nested ones included                          *)
 PrecheckOk(scn, mode) ==
-  IF mode = "faithful"
+  IF Impl(mode)
   THEN NoDupSeq([i \in 1..Len(scn.ins) |-> KeyOf("faithful", scn.ins[i])])
   ELSE NoDupSeq(SetDefNames(scn))
 
@@ -288,13 +307,13 @@ OutcomePanic == [status |-> "panic", res |-> <<>>, main |-> NoTerm]
 RECURSIVE CollectRes(_, _)
 CollectRes(st, i) ==
   IF i > Len(st.ins) THEN <<>>
-  ELSE <<IF st.mode = "faithful" THEN Get(st.parsed, KeyOf("faithful", st.ins[i]))
+  ELSE <<IF Impl(st.mode) THEN Get(st.parsed, KeyOf("faithful", st.ins[i]))
          ELSE (CHOOSE p \in st.out : p[1] = i)[2]>> \o CollectRes(st, i + 1)
 
-(* Finish: the results in INPUT order.  faithful: looked up by the name the input was filed under -- *)
+(* Finish: the results in INPUT order.  implementation: looked up by the name the input was filed under *)
 (* `.expect("One of the input schemas was unexpectedly not parsed")` when it is not there            *)
 FinishOutcome(st, mainterm) ==
-  IF st.mode = "faithful" /\ \E i \in 1..Len(st.ins) : ~Has(st.parsed, KeyOf("faithful", st.ins[i]))
+  IF Impl(st.mode) /\ \E i \in 1..Len(st.ins) : ~Has(st.parsed, KeyOf("faithful", st.ins[i]))
   THEN OutcomePanic
   ELSE [status |-> "ok", res |-> CollectRes(st, 1), main |-> mainterm]
 
@@ -327,8 +346,9 @@ CanonicalOutcome(scn, mode) ==
   IF ~PrecheckOk(scn, mode) THEN OutcomeErr ELSE RunInOrder(InitState(scn, mode), scn)
 
 (* ------------------------------------------------------------------ *)
-(* Shapes of input sets on which the pinned implementation is known to *)
-(* deviate (used by the trace specification's deviation predicates)    *)
+(* Shapes of input sets on which the implementation is (or, for        *)
+(* NestedDupShape, was until fix 59a830b) known to deviate; used by the *)
+(* trace specification's deviation predicates                          *)
 (* ------------------------------------------------------------------ *)
 TopKeys(scn) == {KeyOf("faithful", scn.ins[i]) : i \in 1..Len(scn.ins)}
 (* some input references a name that is no input's own name and is defined nested inside ANOTHER input *)
